@@ -20,7 +20,7 @@ from ..core.framework import Ctx, b2s
 
 SPEC = {
     "modules": ["HC.Props.C13"],
-    "extracted": ["Guards", "Consts", "H11Tables"],
+    "extracted": ["Guards", "Consts", "H11Tables", "H2Init"],
     "technique": "Lean 4: selection function characterised (ALPN, h2c iff Upgrade: h2c and no body headers, preface iff PRI * HTTP/2.0), byte-accounting theorem over arbitrary later reads for both switches (h2 input = client bytes from the cut on), stream-1 header synthesis law — tied by direct drive of H11Protocol and by end-to-end runs over every two-way split of every opening on both workers",
     "level_text": "Proved in Lean: the protocol is selected by ALPN (h2 iff 'h2'), an h2c upgrade is taken iff the last Upgrade header is h2c (any case) and no content-length / transfer-encoding header is present, the cleartext preface iff the request line is PRI * HTTP/2.0, everything else stays HTTP/1.x (an h2c upgrade with a body is ignored); after either switch the HTTP/2 machine has been given exactly the client's bytes from the cut on (preface line re-attached for prior knowledge, trailing data for h2c), for every later sequence of reads - nothing lost, duplicated or reordered - and no later read reaches the HTTP/1 machine; stream 1 of an h2c upgrade carries the request's method, target and headers with host first.  End to end: six opening kinds x further traffic x both workers, every two-way split of the client's byte string (exhaustive per session) plus random k-way splits; the protocol spoken, the scopes and the responses must agree with the specification and be identical across all splits.",
     "level_note": "Trusted: Lean kernel; model HC/Proto/{H11,Wrapper}.lean; h11's trailing_data (bytes buffered past the parsed head) and h2's upgrade handling (initiate_upgrade_connection, HTTP2-Settings decoding) are library behaviour; TLS/ALPN negotiation is an input (the harness presents an ssl object reporting 'h2').",
@@ -35,6 +35,9 @@ OK_SCRIPT = [["recv_body"], ["send", {"type": "http.response.start", "status": 2
 WS_SCRIPT = [["recv"], ["send", {"type": "websocket.accept"}], ["recv"], ["send", {"type": "websocket.send", "text": "echo"}], ["recv"]]
 
 
+H2C_KINDS = ("h2c", "h2c_settings", "h2c_absent", "h2c_custom", "h2c_twice")
+
+
 def build_opening(kind: str) -> dict:
     """client byte string + what the specification says must happen"""
     if kind == "alpn_h2":
@@ -47,11 +50,15 @@ def build_opening(kind: str) -> dict:
         c.request(C.h2_headers("GET", "/one"))
         c.request(C.h2_headers("POST", "/two"), b"body2")
         return {"alpn": None, "bytes": c.out(), "expect": {"proto": "2", "scopes": [("2", "GET", "/one"), ("2", "POST", "/two")]}, "parse": "h2"}
-    if kind in ("h2c", "h2c_settings"):
+    if kind in H2C_KINDS:
+        # the HTTP2-Settings payloads: empty value, the client's real settings, header absent, a hand-made payload
+        # (MAX_CONCURRENT_STREAMS=100, INITIAL_WINDOW_SIZE=65535), the header twice (the last one counts)
         conn = h2.connection.H2Connection(config=h2.config.H2Configuration(client_side=True, header_encoding=None))
         settings = conn.initiate_upgrade_connection()
-        head = C.h1_request("GET", "/up?x=1", [(b"host", b"h.example"), (b"upgrade", b"h2c"), (b"connection", b"Upgrade, HTTP2-Settings"),
-                                               (b"http2-settings", settings if kind == "h2c_settings" else b""), (b"x-a", b"1")])
+        payload = {"h2c": [b""], "h2c_settings": [settings], "h2c_absent": [], "h2c_custom": [b"AAMAAABkAAQAAP__"],
+                   "h2c_twice": [b"AAMAAABk", b""]}[kind]
+        head = C.h1_request("GET", "/up?x=1", [(b"host", b"h.example"), (b"upgrade", b"h2c"), (b"connection", b"Upgrade, HTTP2-Settings")]
+                            + [(b"http2-settings", p) for p in payload] + [(b"x-a", b"1")])
         conn.send_headers(3, C.h2_headers("GET", "/second"), end_stream=True)
         rest = conn.data_to_send()
         return {"alpn": None, "bytes": head + rest, "cut": len(head),
@@ -98,7 +105,7 @@ def stream_views(streams: Dict[str, dict]) -> List[list]:
     return sorted(views, key=lambda v: (v[0] is None, v[0] if v[0] is not None else 0, v[1], str(v[2]), str(v[3])))
 
 
-OPENINGS = ["alpn_h2", "prior", "h2c", "h2c_settings", "h2c_body", "ws", "plain11", "plain10", "alpn_http11"]
+OPENINGS = ["alpn_h2", "prior", "h2c", "h2c_settings", "h2c_absent", "h2c_custom", "h2c_twice", "h2c_body", "ws", "plain11", "plain10", "alpn_http11"]
 
 
 def observe(worker: str, op: dict, reads: List[bytes]) -> dict:
@@ -188,7 +195,7 @@ def check_e2e(ctx: Ctx, kinds: List[str], workers: List[str], exhaustive: bool) 
                 exp = op["expect"]
                 want_scopes = sorted(exp["scopes"])
                 if sorted(tuple(s) for s in o["scopes"]) != want_scopes:
-                    clause = "h2c_upgrade_served_as_stream_1" if kind in ("h2c", "h2c_settings") else "protocol_selection"
+                    clause = "h2c_upgrade_served_as_stream_1" if kind in H2C_KINDS else "protocol_selection"
                     ctx.violation(clause, case, {"scopes": o["scopes"], "want": want_scopes, "wire": o["wire"]}, sig if clause == "protocol_selection" else {"clause": clause})
                 w = o["wire"]
                 if op["parse"] == "h1" and (w["error"] or w["statuses"] != [200] * len(exp["scopes"])):
@@ -269,7 +276,7 @@ def replay(ctx: Ctx, case: dict) -> None:
         o = observe(case["worker"], op, reads)
         exp = op["expect"]
         if sorted(tuple(s) for s in o["scopes"]) != sorted(exp["scopes"]) or o["error"]:
-            clause = "h2c_upgrade_served_as_stream_1" if case["opening"] in ("h2c", "h2c_settings") else "protocol_selection"
+            clause = "h2c_upgrade_served_as_stream_1" if case["opening"] in H2C_KINDS else "protocol_selection"
             ctx.violation(clause, case, o, {"clause": clause} if clause != "protocol_selection" else {"family": "e2e", "opening": case["opening"], "worker": case["worker"]})
     else:
         check_direct(ctx, 50)
